@@ -275,6 +275,17 @@ def _relations(case, ctx, kern, x1, x2, D, g):
         with S.lazily_evaluate_kernels(False):
             ref = _no_active_ref(spec, kern, x1, x2)
         ctx.close("active_dims_select_columns", D, ref.expand(D.shape), "direct", cls=cls)
+    # a second point set that almost coincides with the first (another tensor, differences ~1e-6): still its own points - the
+    # cross block of the stacked evaluation, the swapped call and the lazy tensor all agree with the eager cross matrix
+    if name not in GRADLIKE + ("cylindrical", "multitask", "lcm"):
+        xn = x1 + 3e-6 * util.randn(g, *x1.shape)
+        with S.lazily_evaluate_kernels(False):
+            Dn = kern(x1, xn).to_dense()
+        Jn = kern(torch.cat([x1, xn], -2)).to_dense()
+        ctx.close("near_coincident_blocks", Jn[..., :n1, n1:], Dn, (1e-9, 1e-9), cls=cls + ":near:stacked")
+        ctx.close("near_coincident_blocks", kern(x1, xn).to_dense(), Dn, (1e-9, 1e-9), cls=cls + ":near:lazy")
+        with S.lazily_evaluate_kernels(False):
+            ctx.close("near_coincident_blocks", kern(xn, x1).to_dense().transpose(-1, -2), Dn, (1e-9, 1e-9), cls=cls + ":near:swapped")
     # blocks of K on stacked inputs
     xx = torch.cat([x1, x2], -2)
     J = kern(xx)
